@@ -37,7 +37,7 @@ func (c11) Cases(tier string, race bool) int {
 
 func (c11) Case(c *core.Ctx) {
 	r := c.R
-	keys := []string{"a", "b", "c", "k", "doc"}
+	keys := []string{"a", "b", "c", "k", "doc", "Kk", "a-B"}
 	var gen func(depth int) interface{}
 	gen = func(depth int) interface{} {
 		x := r.Intn(10)
@@ -61,6 +61,9 @@ func (c11) Case(c *core.Ctx) {
 			return m
 		default:
 			n := 1 + r.Intn(3) // no empty lists
+			if r.Intn(15) == 0 {
+				n = 33 + r.Intn(40) // wider than the query functions' initial result capacity
+			}
 			l := jv.L{}
 			for i := 0; i < n; i++ {
 				v := gen(depth - 1)
@@ -125,6 +128,9 @@ func (c11) Case(c *core.Ctx) {
 		return nil, false, false, false, false
 	}
 	before := jv.Fp(root)
+	if ambientDecoderOptions(c, 6) {
+		defer ResetDefaults()
+	}
 	c.Eval()
 	_, exB, pimB, _, _ := nav(root)
 	if pimB && len(segs) >= 2 {
@@ -208,7 +214,7 @@ func (c11) Case(c *core.Ctx) {
 	{
 		exp := jv.Copy(root).(jv.M)
 		act := jv.Copy(root).(jv.M)
-		nn := []string{"a", "b", "c", "k", "fresh", "doc", last}[r.Intn(7)]
+		nn := []string{"a", "b", "c", "k", "fresh", "doc", last, "Kk", "kk", "a-B", "a_b"}[r.Intn(11)]
 		err := mxj.Map(act).RenameKey(path, nn)
 		p, ex, pim, listOnWay, _ := nav(exp)
 		det := core.D{"op": "RenameKey", "map": before, "path": path, "newName": nn, "after": jv.Show(act), "err": fmt.Sprint(err)}
